@@ -35,7 +35,9 @@ class Configured:
     the model's own per-season crop object is consulted only for the calendar type."""
 
     def __init__(self, cfg, model_crop):
-        cat = gen.crop_params[cfg["crop"]["name"]]
+        from ..config import PRISTINE_CROP_PARAMS
+
+        cat = PRISTINE_CROP_PARAMS[cfg["crop"]["name"]]   # catalogue snapshot taken at import, not the live dictionary
         ov = cfg["crop"].get("overrides", {})
         for k in ("CCx", "Zmin", "Zmax", "HI0", "dHI0", "Tbase", "Tupp"):
             setattr(self, k, float(ov.get(k, cat[k])))
